@@ -31,12 +31,15 @@ def _second_reading(prop, tier, seed, root, mod, ctx):
         _common.READ_LOOPS.clear()
         _common.ACCOUNTED.clear()
         _common.ACCOUNTED_RET.clear()
+        _common.ACCOUNTED_LOOP.clear()
+        _common.NORMAL_LOOPS.clear()
         mod.run(ctx2)
         if ctx2.thorough and hasattr(mod, "run_thorough"):
             mod.run_thorough(ctx2)
         if not ctx2.result.findings:
             _common.audit_early_exits(ctx2.result)
             _common.audit_return_forms(ctx2)
+            _common.audit_loop_exits(ctx2.result)
     except AnalysisError as e:
         ctx.result.note(f"second reading (helper-flattened program) incomplete as well: {str(e)[:300]}")
         return ctx
@@ -89,6 +92,8 @@ def run_check(prop: str, tier: str, seed: int, root=None) -> int:
         _common.READ_LOOPS.clear()
         _common.ACCOUNTED.clear()
         _common.ACCOUNTED_RET.clear()
+        _common.ACCOUNTED_LOOP.clear()
+        _common.NORMAL_LOOPS.clear()
         try:
             mod.run(ctx)
             if ctx.thorough and hasattr(mod, "run_thorough"):
@@ -98,6 +103,7 @@ def run_check(prop: str, tier: str, seed: int, root=None) -> int:
         if not ctx.result.findings:
             _common.audit_early_exits(ctx.result)
             _common.audit_return_forms(ctx)
+            _common.audit_loop_exits(ctx.result)
         ctx = _second_reading(prop, tier, seed, root, mod, ctx)
         from .report import load_known, match_known
         _known = load_known()
